@@ -1,6 +1,7 @@
 import Driver.Proto
 import Driver.Server
 import Driver.Client
+import Driver.KeepAlive
 open Drv
 
 /-- one input line `> op …` is answered by one output line; all other lines are ignored -/
@@ -8,6 +9,7 @@ structure AllDrv where
   srv : SrvDrv
   txn : Turn.Txn.St
   cli : Turn.Cli.State
+  ka : KDrv
 
 def stepLine (d : AllDrv) (line : String) : AllDrv × Option String :=
   let toks := (line.splitOn " ").filter (· ≠ "")
@@ -24,7 +26,10 @@ def stepLine (d : AllDrv) (line : String) : AllDrv × Option String :=
         | none =>
           match cliStep d.cli rest with
           | some (c', r) => ({ d with cli := c' }, some r)
-          | none => (d, some "bad-op")
+          | none =>
+            match kaStep d.ka rest with
+            | some (k', r) => ({ d with ka := k' }, some r)
+            | none => (d, some "bad-op")
   | _ => (d, none)
 
 partial def loop (hin hout : IO.FS.Stream) (d : AllDrv) : IO Unit := do
@@ -39,5 +44,5 @@ partial def loop (hin hout : IO.FS.Stream) (d : AllDrv) : IO Unit := do
 def main : IO Unit := do
   let hin ← IO.getStdin
   let hout ← IO.getStdout
-  loop hin hout ⟨SrvDrv.init, ⟨0, []⟩, Turn.Cli.init⟩
+  loop hin hout ⟨SrvDrv.init, ⟨0, []⟩, Turn.Cli.init, KDrv.init⟩
   hout.flush
